@@ -1933,18 +1933,17 @@ func (m *StateMachine) handleJumpAhead(
 	rlc *tsi.RoundLifecycle,
 	vrv tmconsensus.VersionedRoundView,
 ) {
-	if vrv.Height != rlc.H {
-		panic(fmt.Errorf(
-			"BUG: attempted to jump ahead to height %d when on height %d",
-			vrv.Height, rlc.H,
-		))
-	}
-
-	if vrv.Round <= rlc.R {
-		panic(fmt.Errorf(
-			"BUG: attempted to jump ahead to round %d when on height %d, round %d",
-			vrv.Round, rlc.H, rlc.R,
-		))
+	if vrv.Height != rlc.H || vrv.Round <= rlc.R {
+		// The mirror raised the signal for a round we are not behind:
+		// it is for another height (we are lagging by a height, or have just moved on),
+		// or we entered that round ourselves before reading the signal.
+		// The mirror and the state machine run concurrently, so this is ordinary timing.
+		m.log.Debug(
+			"Ignoring jump ahead signal that does not apply to the current round",
+			"height", rlc.H, "round", rlc.R,
+			"jump_height", vrv.Height, "jump_round", vrv.Round,
+		)
+		return
 	}
 
 	// It's a valid round-forward move.
